@@ -122,6 +122,21 @@ func zzC10Mgr(pre int) {
 	if !w.compare() {
 		return
 	}
+	// ... and still opens with its passphrase: lock and unlock again
+	if !w.mgr.WatchOnly() {
+		if !w.mgr.IsLocked() {
+			zzMust(w.mgr.Lock())
+		}
+		var uerr error
+		zzMust(w.view(func(ns walletdb.ReadBucket) error {
+			uerr = w.mgr.Unlock(ns, zzPrvPass)
+			return nil
+		}))
+		verifrt.Assert(uerr == nil && !w.mgr.IsLocked(), "c10-mgr-passphrase-still-unlocks-after-the-rolled-back-operation")
+		if uerr != nil {
+			return
+		}
+	}
 	// retry without the fault
 	verifrt.Observe("tx", "committed")
 	w.dropped = nil // the retry may issue them
@@ -131,6 +146,21 @@ func zzC10Mgr(pre int) {
 		w.height = 1
 	}
 	w.compare()
+	if !w.mgr.WatchOnly() {
+		pass := zzPrvPass
+		if op.name == "ChangePassphrase" {
+			pass = []byte("new-pass")
+		}
+		if !w.mgr.IsLocked() {
+			zzMust(w.mgr.Lock())
+		}
+		var uerr error
+		zzMust(w.view(func(ns walletdb.ReadBucket) error {
+			uerr = w.mgr.Unlock(ns, pass)
+			return nil
+		}))
+		verifrt.Assert(uerr == nil, "c10-mgr-current-passphrase-unlocks-after-the-retry")
+	}
 	verifrt.Reach("c10-end")
 }
 
